@@ -91,6 +91,51 @@ pub fn stale_slot_script(rng: &mut Rng) -> std::collections::VecDeque<String> {
     out
 }
 
+/// Scripted construction (needs the `sequential` plan) of a four-group table whose spare capacity is all
+/// tombstones and in which a fresh key X finds its first probe group full of DISPLACED elements and its
+/// first free bucket EMPTY in the second probe group: `w` keys A with home p fill group p, `w` keys E with
+/// the same home are displaced into the next group, the A's are removed (tombstones), fillers use up the
+/// remaining growth and are removed again (tombstones, growth_left = 0, len = w <= capacity/2). Inserting X
+/// (home = E's group) through the vacant-entry path picks the EMPTY bucket, must reserve, the in-place
+/// rehash takes the E's home — X's first probe group is now free — and the slot picked BEFORE the rehash is
+/// behind a group with EMPTY bytes. X and the E's are then looked up.
+pub fn displaced_group_script(rng: &mut Rng) -> std::collections::VecDeque<String> {
+    let w = hashbrown::verif::GROUP_WIDTH;
+    let n = 4 * w;
+    let mask = n - 1;
+    let cap = hashbrown::verif::bucket_mask_to_capacity(mask);
+    let r = rng.below(4) as usize * w;
+    let key = |p: usize, j: usize| ((p + r) & mask) + n * j;
+    let mut out = std::collections::VecDeque::new();
+    out.push_back(format!("a with_capacity {}", cap));
+    for j in 0..w {
+        out.push_back(format!("INS {}", key(0, j)));
+    }
+    for j in 0..w {
+        out.push_back(format!("INS {}", key(0, w + j)));
+    }
+    for j in 0..w {
+        out.push_back(format!("a remove {}", key(0, j)));
+    }
+    let spare = cap - 2 * w;
+    let fill: Vec<usize> = (0..spare).map(|j| key(2 * w + w / 2, j)).collect();
+    for k in &fill {
+        out.push_back(format!("INS {}", k));
+    }
+    for k in &fill {
+        out.push_back(format!("a remove {}", k));
+    }
+    let x = key(w, 3);
+    out.push_back(format!("EINS {}", x));
+    out.push_back(format!("a get {}", x));
+    for j in 0..w {
+        out.push_back(format!("a get {}", key(0, w + j)));
+    }
+    out.push_back(format!("EINS {}", key(w, 4)));
+    out.push_back(format!("a get {}", key(w, 4)));
+    out
+}
+
 /// Scripted construction (needs the `const0` plan: every key hashes to 0, so insertion order = probe
 /// order) of a 128-bucket table in which the in-place rehash meets an element whose ideal group is
 /// visited EARLIER by the triangular probe but lies LATER in linear order than the group it sits in:
@@ -252,6 +297,18 @@ impl Gen {
             if let Some(k) = op.strip_prefix("TINS ") {
                 let id = self.id();
                 return format!("a insert_unique {} {} {}", k, id, 100 + self.rng.below(50));
+            }
+            if let Some(k) = op.strip_prefix("EINS ") {
+                // insertion of an absent key through `RawTable::insert` (probe, reserve, probe again)
+                let (kid, vid) = (self.id(), self.id());
+                let v = 100 + self.rng.below(50);
+                return match self.rng.below(5) {
+                    0 => format!("a entry {} {} or_insert {} {}", k, kid, vid, v),
+                    1 => format!("a entry {} {} insert {} {}", k, kid, vid, v),
+                    2 => format!("a entry_ref {} {} or_insert {} {}", k, kid, vid, v),
+                    3 => format!("a raw_from_key {} vac_insert {} {} {}", k, kid, vid, v),
+                    _ => format!("a try_insert {} {} {} {}", k, kid, vid, v),
+                };
             }
             return match op.strip_prefix("INS ") {
                 Some(k) => format!("a {}", self.insert(k.parse().unwrap())),
